@@ -156,8 +156,12 @@ static void *asm_mmap_file(char *asm_file, size_t *str_len) {
   FAIL_SYS(fd == -1, "failed to open file\n", MAP_FAILED);
   struct stat file_stat;
 
-  // NOLINTNEXTLINE
-  FAIL_SYS(fstat(fd, &file_stat), "failed to get file stats\n", MAP_FAILED);
+  if (fstat(fd, &file_stat)) {
+    fprintf(stderr, "assembyline: failed to get file stats\n");
+    perror("error ");
+    close(fd);
+    return MAP_FAILED; // NOLINT
+  }
   // copy the file contents into a zero-filled anonymous mapping that is one
   // byte longer than the file, so the result is always a NUL-terminated string
   // (a mapping of the file itself has no terminator when its size is a multiple
